@@ -82,26 +82,11 @@ def t0_fail_codes(chk, key):
         chk.violation(R, '%s: orderly closure site exists' % key, P.src, 'no fail(0) site: orderly closure cannot be reported', key='%s %s no-closure' % (R, key))
 
 
-def engine_rules(chk):
+def close_order(chk):
+    """close: unread application data is discarded BEFORE the closure handshake is entered (shared by C06: once the closure
+    handshake has started recvapp_buf returns NULL, the unread record is never released and the engine offers nothing)"""
     s = 'src/ssl/ssl_engine.c'
     u = build.load_unit(s)
-    L = irf.Layouts(u)
-    f = lambda n: L.field('br_ssl_engine_context', n)[0]
-    cv = build.const_values(['BR_OPT_NO_RENEGOTIATION', 'BR_IO_FAILED', 'BR_ERR_IO'])
-    R = 'renegotiation-declined'
-    NI = ('jump_handshake',)
-    nojh = ALL(RET(0), NOCALL('jump_handshake'))
-    obs = [
-        Ob(s, 'br_ssl_engine_renegotiate', Call('br_ssl_engine_closed'), ('pin', 1), nojh, ('pin', 0), 'closed engine', rule=R, noinline=NI,
-           extra_hyps=[]),
-        Ob(s, 'br_ssl_engine_renegotiate', FieldLoad(0, f('reneg'), 'reneg'), ('pin', 1), nojh, None, 'peer without secure renegotiation (reneg == 1)', rule=R, noinline=NI),
-        Ob(s, 'br_ssl_engine_renegotiate', FieldLoad(0, f('flags'), 'flags'), ('pin', cv['BR_OPT_NO_RENEGOTIATION']), nojh, None,
-           'BR_OPT_NO_RENEGOTIATION', rule=R, noinline=NI),
-        Ob(s, 'br_ssl_engine_renegotiate', Call('br_ssl_engine_recvapp_buf'), ('pin', 'inttoptr (i64 4096 to i8*)'), nojh, None,
-           'unread application data pending', rule=R, noinline=NI + ('br_ssl_engine_recvapp_buf',)),
-    ]
-    oblig.run_obligations(chk, obs)
-    # close: unread application data is discarded BEFORE the closure handshake is entered
     R = 'close-discards-before-closing'
     U = irf.Units({'u': u})
     F = U.func('br_ssl_engine_close')
@@ -126,6 +111,83 @@ def engine_rules(chk):
         chk.ok(R, inst, F.where(jh[0]))
     else:
         chk.violation(R, inst, F.where(), 'the discard of unread application data does not precede the closure handshake', key='%s close-order' % R)
+
+
+def reneg_binding(chk):
+    """RFC 5746 3.4-3.7: a renegotiation is bound to the previous handshake by comparing the renegotiation_info extension with the
+    saved verify_data: the client compares client_verify_data || server_verify_data (2 x 12 bytes), the server client_verify_data
+    (12 bytes); a mismatch is fatal; both Finished values are saved (12 bytes each, client first)."""
+    R = 'secure-renegotiation-binding'
+    cv = build.const_values(['BR_ERR_BAD_SECRENEG'])
+    for key, want in (('hs_client', 24), ('hs_server', 12)):
+        P = t0.Program(key)
+        off = P.layouts.field(P.ctxname, 'eng.saved_finished')[0]
+        pad = P.layouts.field(P.ctxname, 'eng.pad')[0]
+        I = t0ai.Interp(P).run_entry()
+        cmps = [e for e in I.events if e.name == 'memcmp' and any(a.isconst() and a.c == off for a in e.args[:2])]
+        inst = '%s: renegotiation_info is compared with saved_finished over %d bytes' % (key, want)
+        if len(set((e.word, e.pc) for e in cmps)) != 1:
+            chk.violation(R, inst, P.src, '%d comparisons with saved_finished found' % len(cmps), key='%s %s count' % (R, key))
+            continue
+        e = cmps[0]
+        ln = e.st.rng(e.args[2])
+        other = [a for a in e.args[:2] if not (a.isconst() and a.c == off)]
+        okk = ln == (want, want) and len(other) == 1 and other[0].isconst() and other[0].c == pad
+        if okk:
+            chk.ok(R, inst, P.src, 'W%d@%d memcmp(saved_finished, pad, %d)' % (e.word, e.pc, want))
+        else:
+            chk.violation(R, inst, P.src, 'W%d@%d compares %s bytes (operands %s): part of the previous verify_data is not checked, so the renegotiation '
+                          'is not bound to the previous handshake' % (e.word, e.pc, ln, [str(a) for a in e.args[:2]]), key='%s %s len' % (R, key))
+        # a mismatch is fatal
+        Ip = t0ai.Interp(P, pins={'memcmp': 0}).run_entry()
+        fe = [x for x in Ip.events if x.name == 'fail' and x.word == e.word and x.args[0].isconst() and x.args[0].c == cv['BR_ERR_BAD_SECRENEG'] and x.pc > e.pc]
+        inst = '%s: a renegotiation_info mismatch ends in fail(BR_ERR_BAD_SECRENEG)' % key
+        okk = False
+        det = 'no such failure after the comparison'
+        for x in fe:
+            g = t0rules.guard_before(P, x.word, x.pc)
+            if g is not None and e.pc < g.pc and Ip.branches.get((x.word, g.pc)) and len(Ip.branches[(x.word, g.pc)]) == 1:
+                okk = True
+                det = 'guard at %d one-sided under memcmp -> mismatch' % g.pc
+        if okk:
+            chk.ok(R, inst, P.src, det)
+        else:
+            chk.violation(R, inst, P.src, det, key='%s %s fatal' % (R, key))
+        # both verify_data values are saved: 12 bytes at saved_finished and saved_finished + 12, from the pad
+        saves = set()
+        for x in I.events:
+            if x.name == 'memcpy' and x.st.rng(x.args[2]) == (12, 12) and x.args[1].isconst() and x.args[1].c == pad:
+                lo, hi = x.st.rng(x.args[0])
+                if lo in (off, off + 12) and hi in (off, off + 12):      # a constant, or the join of the two call contexts (from_client or not)
+                    saves.update((lo - off, hi - off))
+        inst = '%s: compute-Finished saves both verify_data values (12 bytes each)' % key
+        if saves == {0, 12}:
+            chk.ok(R, inst, P.src)
+        else:
+            chk.violation(R, inst, P.src, 'saved offsets: %s' % sorted(saves), key='%s %s saves' % (R, key))
+
+
+def engine_rules(chk):
+    s = 'src/ssl/ssl_engine.c'
+    u = build.load_unit(s)
+    L = irf.Layouts(u)
+    f = lambda n: L.field('br_ssl_engine_context', n)[0]
+    cv = build.const_values(['BR_OPT_NO_RENEGOTIATION', 'BR_IO_FAILED', 'BR_ERR_IO'])
+    R = 'renegotiation-declined'
+    NI = ('jump_handshake',)
+    nojh = ALL(RET(0), NOCALL('jump_handshake'))
+    obs = [
+        Ob(s, 'br_ssl_engine_renegotiate', Call('br_ssl_engine_closed'), ('pin', 1), nojh, ('pin', 0), 'closed engine', rule=R, noinline=NI,
+           extra_hyps=[]),
+        Ob(s, 'br_ssl_engine_renegotiate', FieldLoad(0, f('reneg'), 'reneg'), ('pin', 1), nojh, None, 'peer without secure renegotiation (reneg == 1)', rule=R, noinline=NI),
+        Ob(s, 'br_ssl_engine_renegotiate', FieldLoad(0, f('flags'), 'flags'), ('pin', cv['BR_OPT_NO_RENEGOTIATION']), nojh, None,
+           'BR_OPT_NO_RENEGOTIATION', rule=R, noinline=NI),
+        Ob(s, 'br_ssl_engine_renegotiate', Call('br_ssl_engine_recvapp_buf'), ('pin', 'inttoptr (i64 4096 to i8*)'), nojh, None,
+           'unread application data pending', rule=R, noinline=NI + ('br_ssl_engine_recvapp_buf',)),
+    ]
+    oblig.run_obligations(chk, obs)
+    close_order(chk)
+    NI = ('jump_handshake',)
     # close on a closed engine does nothing
     oblig.run_obligations(chk, [
         Ob(s, 'br_ssl_engine_close', Call('br_ssl_engine_closed'), ('pin', 1), NOCALL('jump_handshake'), ('pin', 0), 'closing twice', rule=R, noinline=NI),
@@ -210,6 +272,7 @@ def run(tier):
     for key in ('hs_client', 'hs_server'):
         t0_fail_codes(chk, key)
     engine_rules(chk)
+    reneg_binding(chk)
     fail_call_sites(chk)
     io_rules(chk)
     chk.floor('rule instances', len(chk.obls), 100)
